@@ -22,6 +22,10 @@ from pprint import pformat
 # replacing that function with our beartype-specific variant in the
 # "beartype.claw._importlib._clawimpfileloader" submodule.
 from importlib.util import cache_from_source as cache_from_source_original
+from threading import (
+    Lock,
+    local,
+)
 
 # ....................{ SUBCLASSES                         }....................
 class ModuleNameToBeartypeConf(dict[str, 'BeartypeConf']):
@@ -212,10 +216,29 @@ def cache_from_source_beartype(*args, **kwargs) -> str:
     ``".pyc{optimization}_{OPTIMIZATION_MARKER_BEARTYPE}"``, where
     ``{optimization}`` is the original ``optimization`` parameter passed to this
     function call.
+
+    Caveats
+    -------
+    **This function only applies this marker to modules currently being imported
+    under a beartype import hook by the current thread.** The monkey-patch
+    installing this function is process-wide but *not* guarded by a global import
+    lock, which Python >= 3.3 no longer provides. Modules concurrently imported
+    by other threads *without* being hooked are thus compiled to their standard
+    non-beartyped bytecode filenames.
     '''
 
-    # Avoid circular import dependencies.
-    from beartype._data.claw.dataclawmagic import OPTIMIZATION_MARKER_BEARTYPE
+    # Beartype-specific optimization marker of the hooked module currently being
+    # imported by the current thread if any *OR* "None" otherwise (i.e., if this
+    # thread is importing an unhooked module while another thread is
+    # concurrently importing a hooked module).
+    optimization_marker_beartype = getattr(
+        _cache_thread_local, 'optimization_marker', None)
+
+    # If this thread is importing an unhooked module, defer to the original
+    # cache_from_source() function as is.
+    if optimization_marker_beartype is None:
+        return cache_from_source_original(*args, **kwargs)
+    # Else, this thread is importing a hooked module.
 
     # Original optimization parameter passed to this function call if any *OR*
     # the empty string otherwise.
@@ -224,7 +247,74 @@ def cache_from_source_beartype(*args, **kwargs) -> str:
     # New optimization parameter applied by this monkey-patch of that function,
     # uniquifying that parameter with a beartype-specific suffix.
     kwargs['optimization'] = (
-        f'{optimization_marker_nonbeartype}{OPTIMIZATION_MARKER_BEARTYPE}')
+        f'{optimization_marker_nonbeartype}{optimization_marker_beartype}')
 
     # Defer to the implementation of the original cache_from_source() function.
     return cache_from_source_original(*args, **kwargs)
+
+
+def make_cache_optimization_marker(conf: BeartypeConf) -> str:
+    '''
+    Beartype-specific optimization marker uniquifying the filenames of bytecode
+    files compiled under beartype import hooks configured by the passed beartype
+    configuration.
+
+    This marker suffixes the configuration-agnostic
+    :data:`.OPTIMIZATION_MARKER_BEARTYPE` marker by the subset of configuration
+    parameters deciding the abstract syntax tree (AST) transformation applied by
+    these hooks and thus the bytecode compiled from that AST. Bytecode cached
+    under one configuration is thus *never* erroneously reused under another
+    configuration adding or dropping type-checks relative to the former.
+
+    Parameters
+    ----------
+    conf : BeartypeConf
+        Beartype configuration configuring the hook importing that module.
+
+    Returns
+    -------
+    str
+        Optimization marker specific to this configuration. This marker is
+        guaranteed to contain *only* alphanumeric characters as required by the
+        :func:`importlib.util.cache_from_source` function.
+    '''
+    assert isinstance(conf, BeartypeConf), f'{repr(conf)} not configuration.'
+
+    # Avoid circular import dependencies.
+    from beartype._conf.confcommon import BEARTYPE_CONF_DEFAULT
+    from beartype._data.claw.dataclawmagic import OPTIMIZATION_MARKER_BEARTYPE
+
+    # Return this marker suffixed by all parameters deciding this transformation.
+    # Since the default configuration is *NOT* passed to injected decorators and
+    # statements, whether this configuration is the default is also a parameter.
+    return (
+        f'{OPTIMIZATION_MARKER_BEARTYPE}'
+        f'c{int(conf == BEARTYPE_CONF_DEFAULT)}'
+        f'a{int(conf.claw_is_pep526)}'
+        f'f{conf.claw_decor_place_func.value}'
+        f't{conf.claw_decor_place_type.value}'
+    )
+
+# ....................{ PRIVATE ~ globals                  }....................
+_cache_thread_local = local()
+'''
+Thread-local storage whose ``optimization_marker`` attribute is either:
+
+* If the current thread is currently importing a hooked module, the
+  beartype-specific optimization marker to be applied to that module.
+* Else, undefined or :data:`None`.
+'''
+
+
+_cache_patch_lock = Lock()
+'''
+Non-reentrant lock guarding the :data:`._cache_patch_count` counter.
+'''
+
+
+_cache_patch_count = 0
+'''
+Number of threads currently importing hooked modules and thus requiring the
+:func:`importlib._bootstrap_external.cache_from_source` function to remain
+monkey-patched by the :func:`.cache_from_source_beartype` function.
+'''
